@@ -10,6 +10,7 @@ one() {
   id=$1
   d=seeded/$id
   [ -f $d/patch.diff ] || return
+  if python3 -c "import json,sys;sys.exit(0 if json.load(open('$d/meta.json')).get('retired') else 1)"; then printf "%s\t-\tretired\t\n" "$id"; return; fi
   chk=$(python3 -c "import json,sys;m=json.load(open('$d/meta.json'));print(m.get('detection',{}).get('caught_by') or m['property'])")
   res=$(LINES_MAX=40 tools/try_patch.sh $d/patch.diff $chk 2>&1)
   rc=$(echo "$res" | sed -n 's/^exit=//p' | tail -1)
